@@ -21,6 +21,7 @@ RULE = (
     ' Also: one call whose padded work array has 34 million entries (thorough: three).'
     ' Every scorer object also receives a call that fails part-way (distance matrix of another size) before it is used again.'
     ' Also: large plates with means on two scales (one sample 1e5 .. 1e7 away) through the homoscedastic and heteroscedastic entry points.'
+    ' Also: plates of two screen objects of equal length in one scorer call.'
 )
 ASSUMPTIONS = [
     "plates have >=1 experiment; means bounded so no single term overflows (finiteness is claimed only when some triple has positive distance)",
@@ -373,6 +374,24 @@ def check_case(case):
             got = scorer.score(plates={k: plates[k] for k in sorted(plates, key=lambda k_: int(plates[k_].size))}, distance_matrix=cdm, samples=holder, rng=np.random.default_rng(13), progress_bar=False)
             for k, v in got.items():
                 require(_close(float(v), ref[int(k)]), "scorer.after_failed_call", lambda: "plate %d: the scorer object (max_chunk=%d), used again after a call that failed, gives %r; direct estimator %r" % (int(k), mc, float(v), ref[int(k)]))
+    # candidate plates of TWO screen objects of equal length in one call (two libraries scored together): every plate's score is
+    # the direct estimator on that plate's own experiments
+    other = S.build_screen(dict(sc, rows=list(reversed(sc["rows"]))), treatment_mapping=screen.treatment_mapping, sample_mapping=screen.sample_mapping)
+    plates_b = {1000 + int(p_.plate_id): p_ for p_ in other.plates if not bool(np.all(p_.observation_mask))}
+    if plates_b:
+        ref_b = {}
+        for pid, p_ in plates_b.items():
+            m_ = np.stack([np.asarray(t.predict_conditional_mean(p_), dtype=float) for t in thetas])
+            v_ = np.stack([np.asarray(t.predict_conditional_variance(p_), dtype=float) for t in thetas])
+            ref_b[pid] = reference_score(m_, v_, d, 1.0)
+        both = dict(plates)
+        both.update(plates_b)
+        keys_ = sorted(both, key=lambda k_: (k_ % 1000, k_))  # plates of the two screens alternate
+        for mc in sorted({case["max_chunk"], 2, 50}):
+            got = gd.GaussianDBALScorer(max_chunk=mc, max_triples=math.comb(n, 3) + 3).score(plates={k_: both[k_] for k_ in keys_}, distance_matrix=cdm, samples=holder, rng=np.random.default_rng(14), progress_bar=False)
+            for k_, v_ in got.items():
+                want_ = ref[int(k_)] if int(k_) < 1000 else ref_b[int(k_)]
+                require(_close(float(v_), want_), "scorer.plates_of_two_screens", lambda: "plates of two screen objects scored in one call (max_chunk=%d): plate key %d gets %r, the direct estimator on its own experiments is %r" % (mc, int(k_), float(v_), want_))
     # the same scorer objects, another distance matrix (the next round of a simulation): scores follow the new matrix
     d2 = d[::-1, ::-1].copy() * 1.5 + (1.0 - np.eye(n)) * 0.25
     cdm2 = ChunkedDistanceMatrix(size=n)
